@@ -37,6 +37,9 @@ func checkC02(c *Ctx) {
 	c.NotDec = "cryptographic soundness of ECDSA/Ed25519/BLS12-381 and of the hash; the completeness direction (honestly assembled certificates verify) beyond the writer/reader agreement of C02.8."
 	c.Assume = append(c.Assume, "the three signature primitives are unforgeable and the bls12-381 library implements pairing checks correctly")
 	c.Expect("C02.1", 3)
+	// a verdict remembered by the verification cache is a verdict of the delegate (C11.2): otherwise a certificate
+	// rejected once is accepted when it is presented again
+	c.importFrom(checkC11, "C02.9", "C11.2")
 	c.Expect("C02.2", 3)
 	c.Expect("C02.4", 5)
 	c.Expect("C02.5", 10)
@@ -1006,6 +1009,48 @@ func c02BLSKeyLookups(c *Ctx) {
 		if n == 0 {
 			c.Unresolved("C02.6", "bls12Base."+m, "no public key lookup reachable from the verifier")
 		}
+	}
+	// BatchVerify gathers keys and messages by ranging over the batch: that covers every claimed participant only
+	// if the batch has exactly as many entries as the signature has participants (the aggregate then fails unless
+	// they are the same replicas); otherwise the participant set can be padded beyond what was verified while it
+	// still counts toward the quorum. Alternative shape: the keys are gathered by iterating the participants.
+	if bv := p.Method("security/crypto", "bls12Base", "BatchVerify"); bv != nil {
+		fl := NewFlow(p, bv)
+		byParticipants := false
+		for _, cl := range Closures(bv) {
+			k := NewKeyer(p, cl)
+			for _, s := range callsIn(cl, false, func(cc *ssa.CallCommon) bool { return calleeIs(cc, pk) }) {
+				if len(s.Common().Args) > 1 && k.Key(s.Common().Args[1]) == "p0" {
+					byParticipants = true
+				}
+			}
+		}
+		var bad []string
+		exits := successExits(fl, 0)
+		for _, e := range exits {
+			eq := func(f Fact) bool {
+				if f.Op != "==" {
+					return false
+				}
+				isLenBatch := func(k string) bool { return strings.HasPrefix(k, "builtin len(p2)") }
+				isPartLen := func(k string) bool {
+					return strings.Contains(k, ".Len(") && strings.Contains(k, "Participants(") || strings.Contains(k, "Bitfield).Len(")
+				}
+				return isLenBatch(f.L) && isPartLen(f.R) || isLenBatch(f.R) && isPartLen(f.L)
+			}
+			ok := byParticipants || branchDominates(fl, e.Ret, eq)
+			for f := range e.Facts {
+				if eq(f) {
+					ok = true
+				}
+			}
+			if !ok {
+				bad = append(bad, p.Pos(e.Ret.Pos()))
+			}
+		}
+		c.Check(len(bad) == 0 && len(exits) > 0, "C02.6", "bls12Base.BatchVerify: the batch covers every claimed participant", p.FuncPos(bv),
+			"every accepting exit is under Participants().Len() == len(batch) (keys and messages are gathered by ranging over the batch)",
+			"accepting exit at "+join(bad)+" without Participants().Len() == len(batch): participants that are not in the batch are never verified but count toward the quorum (a sub-quorum aggregate QC with a padded bit field verifies)")
 	}
 }
 
